@@ -38,6 +38,7 @@ func (u Union) generateUnmarshalBebop(w *iohelp.ErrorWriter, settings GenerateSe
 	exposedName := exposeName(u.Name, settings)
 	writeLine(w, "func (bbp *%s) UnmarshalBebop(buf []byte) (err error) {", exposedName)
 	writeLine(w, "\tat := 0")
+	writeLengthCheck(w, "4", 1)
 	writeLine(w, "\t_ = iohelp.ReadUint32Bytes(buf[at:])")
 	writeLine(w, "\tbuf = buf[4:]")
 	writeLine(w, "\tif len(buf) == 0 {")
